@@ -357,6 +357,52 @@ func suiteC12(s *Suite, rng *Rng, tier string) {
 				s.Count("untied-range-proof:not-built")
 			}
 		}
+		// a cheating prover with a degenerate commitment: a range proof whose C_i is 0 modulo N makes every product it occurs in
+		// 0 whatever the responses are, so the two relations it takes part in hold vacuously -- for any bound
+		for vi, variant := range []string{"C0=0", "C0=N", "C1=0", "C3=2N", "C0=0(three squares)"} {
+			if round%2 == 1 && vi > 1 {
+				break
+			}
+			which := map[string]int{"C0=0": 0, "C0=N": 0, "C1=0": 1, "C3=2N": 3, "C0=0(three squares)": 0}[variant]
+			val := map[string]*gbig.Int{"C0=0": bi(0), "C0=N": cp(pk.N), "C1=0": bi(0), "C3=2N": new(gbig.Int).Lsh(pk.N, 1), "C0=0(three squares)": bi(0)}[variant]
+			var sp rangeproof.SquareSplitter
+			nsq := 4
+			lo := new(gbig.Int).Set(m)
+			if vi == 4 {
+				if !(m.IsInt64() && m.Int64() < 3000) {
+					continue
+				}
+				sp, nsq = table, 3
+			}
+			stT := &rangeproof.Statement{Sign: 1, Factor: 1, Bound: lo, Splitter: sp} // true: m >= m
+			bz, err := cred.CreateDisclosureProofBuilder([]int{}, map[int][]*rangeproof.Statement{idx: {stT}}, false)
+			if err != nil {
+				continue
+			}
+			rz, _ := gabi.NewProofRandomizers()
+			list, err := bz.Commit(rz)
+			if err != nil {
+				continue
+			}
+			// contributions of the range proof are the last nsq+1 entries: [m-correct, C_0 .. C_nsq-1]
+			list[len(list)-(nsq+1)] = bi(0)
+			list[len(list)-nsq+which] = bi(0)
+			cz := gabi.VerifCreateChallenge(ctx, nonce, list, false)
+			pz := bz.CreateProof(cz).(*gabi.ProofD)
+			rp := pz.RangeProofs[idx][0]
+			rp.Cs[which] = val
+			rp.K = new(gbig.Int).Add(m, pow2(100)) // "attribute >= attribute + 2^100"
+			if nsq == 3 {
+				rp.K = new(gbig.Int).Sub(new(gbig.Int).Lsh(new(gbig.Int).Add(m, pow2(100)), 2), bi(2))
+			}
+			wire := cloneProofD(pz)
+			for _, rps := range wire.RangeProofs {
+				for _, r := range rps {
+					r.MResponse = nil
+				}
+			}
+			run("degenerate-commitment:"+variant, wire)
+		}
 		// transplant from another credential
 		{
 			st3, _ := rangeproof.NewStatement(rangeproof.GreaterOrEqual, bi(3))
